@@ -91,6 +91,8 @@ def check_pair(run, model, rng, good, junk, plugins, bits, i):
                     for key, argv in modes:
                         if key in ("-a", "-l"):
                             real[key] = cli_runner.run_subproc(["-p", d2] + argv)
+                            # and with assertions disabled: what is junk must stay junk under python -O
+                            real[key + " (python -O)"] = cli_runner.run_subproc(["-p", d2] + argv, optimize=True)
             with dirgen.TempDir(good + junk, subdirs=subdirs) as d3:
                 r2.update(run_modes(d3, [m for m in modes if m[0] == "-n"], tmp + "/c"))
             junk_la_only = list(junk_la)
@@ -105,9 +107,10 @@ def check_pair(run, model, rng, good, junk, plugins, bits, i):
                   plugins=plugins, bits=bits, unreadable=[f[0] for f in junk if f[2].get("kind") == "unreadable"])
         for key, (rcr, outr, errr) in real.items():
             run.count("real-process:" + key)
-            if rcr != 0 or outr != r2[key][1]:
+            base_key = key.split(" ")[0]
+            if rcr != 0 or outr != r2[base_key][1]:
                 run.violation("stdout-real-process:" + key, "peltool %s as a real process: exit status %r, standard output differs from what the mode produces in-process" % (key, rcr),
-                              dict(rp, kind="S", mode=key, real_stdout=outr[-500:], inproc_stdout=r2[key][1][-500:], stderr=errr[-300:]))
+                              dict(rp, kind="S", mode=key, real_stdout=outr[-500:], inproc_stdout=r2[base_key][1][-500:], stderr=errr[-300:]))
         for key, argv in modes:
             rc1, out1, err1, files1 = r1[key]
             rc2, out2, err2, files2 = r2[key]
@@ -210,7 +213,7 @@ def run(run, model, proof):
             good.append((a, g, dict(kind="pel", eid=0x6000 + i)))
             junk.append((b, j, dict(kind="junk")))
         if rng.random() < 0.3:
-            junk.append((rng.choice(["0_gone_%d", "m_gone_%d.pel", "zz_gone_%d"]) % i, b"", dict(kind="unreadable")))
+            junk.append((rng.choice(["0_gone_%d", "m_gone_%d.pel", "zz_gone_%d"]) % i, b"", dict(kind="unreadable", how=rng.choice(["dangling", "loop", "socket"]))))
         if rng.random() < 0.3:
             # a good PEL whose document holds characters outside ASCII, a lone surrogate included (JSON user data): printing it
             # must not disturb the framing of what is printed around it
